@@ -138,6 +138,36 @@ def run(sid, props):
     return out_all
 
 
+def robust(sids, seeds):
+    """Each seeded change against its own property's quick check under several VERIF_SEEDs (how often is it caught?)."""
+    out = {}
+    for sid in sids:
+        sdir = os.path.join(HERE, "seeded", sid)
+        meta = json.load(open(os.path.join(sdir, "meta.json")))
+        pid = meta["property"]
+        d = scratch(sid + "-rb")
+        try:
+            rc, o = sh(["git", "-C", d, "apply", os.path.join(sdir, "patch.diff")])
+            assert rc == 0, o
+            res = {}
+            for seed in seeds:
+                work = os.path.join(HERE, ".work", "seeded", sid + "-rb")
+                e = dict(os.environ)
+                e.update({"VERIF_REPO": d, "VERIF_WORK": work, "VERIF_EVIDENCE_DIR": os.path.join(work, "evidence"),
+                          "VERIF_SEED": str(seed), "VERIF_JOBS": os.environ.get("VERIF_JOBS", "8")})
+                rc, o = sh([os.path.join(HERE, "check"), pid, "quick"], cwd=HERE, env=e, timeout=7200)
+                vio = [l for l in o.splitlines() if l.startswith("VIOLATION")]
+                res[str(seed)] = ("caught" if rc == 1 and vio and not vio[0].endswith("no-failing-input-found")
+                                  else "caught-nfi" if rc == 1 and vio else "MISSED")
+            out[sid] = res
+            print(sid, pid, res, flush=True)
+        finally:
+            drop(d)
+        rf = os.path.join(sdir, "robust.json")
+        json.dump(res, open(rf, "w"), indent=1)
+    return out
+
+
 def table():
     rows = []
     for rf in sorted(glob.glob(os.path.join(HERE, "seeded", "*", "result.json"))):
@@ -172,6 +202,14 @@ if __name__ == "__main__":
             else:
                 needs[k] = v
         import_(a[1], needs, rnd)
+    elif a and a[0] == "robust":
+        sids = [x for x in a[1:] if not x.startswith("seeds=")] or sorted(os.listdir(os.path.join(HERE, "seeded")))
+        sids = [x for x in sids if os.path.exists(os.path.join(HERE, "seeded", x, "meta.json"))]
+        seeds = [1, 2, 3]
+        for x in a[1:]:
+            if x.startswith("seeds="):
+                seeds = [int(y) for y in x[6:].split(",")]
+        robust(sids, seeds)
     elif a and a[0] == "table":
         table()
     else:
